@@ -119,6 +119,45 @@ reg_split!(c05_reg_split_n3_p1_w01, 3, 1, 1, 7);
 // every row present with weight 1..2 (total weight up to 6): the leaf-size guard is exercised with candidates on both sides
 // @vp name=c05_reg_split_n3_p1_w12 prop=C05 tier=quick mem=24 t=480 fns=DecisionTreeRegressor::find_best_split,quick_argsort_mut size=n=3,p=1 dom=x-lattice(0..3),y-lattice(-2..2),weights1..2,msl1..2,f32 stubs=traps,no_format
 reg_split!(c05_reg_split_n3_p1_w12, 3, 1, 1, 2, 7);
+// the same split search on features rescaled by a power of two, x = k * 2^e with e in -60..20: thresholds and the chosen
+// partition must not depend on the scale (equal values are equal at any scale, distinct ones stay distinct)
+// @vp name=c05_reg_split_n2_scaled prop=C05 tier=quick t=480 fns=DecisionTreeRegressor::find_best_split,quick_argsort_mut size=n=2,p=1 dom=x=k*2^e,k0..3,e-60..20,y-lattice(-2..2),weights0..2,msl=1,f32 stubs=traps,no_format
+vp_proof_traps! {
+    #[cfg_attr(kani, kani::unwind(6))]
+    fn c05_reg_split_n2_scaled() {
+        let e: i8 = kani::any();
+        kani::assume(e >= -60 && e <= 20);
+        let scale = f32::from_bits(((127i32 + e as i32) as u32) << 23);
+        let mut xi = [0i32; 2];
+        let mut xa = [0f32; 2];
+        let mut yi = [0i32; 2];
+        let mut y = vec![0f32; 2];
+        let mut w = [0usize; 2];
+        for i in 0..2 {
+            let (a, b) = lat32(0, 3);
+            xi[i] = a;
+            xa[i] = b * scale;
+            let (a, b) = lat32(-2, 2);
+            yi[i] = a;
+            y[i] = b;
+            w[i] = anyu(0, 2);
+        }
+        kani::assume(w[0] + w[1] >= 1);
+        let x = DenseMatrix::from_array(2, 1, &xa);
+        let r = verif_best_split_regressor(&x, &y, w.to_vec(), DecisionTreeRegressorParameters::default());
+        let can_cut = w[0] > 0 && w[1] > 0 && xi[0] != xi[1];
+        match r {
+            Some((f, thr, tout, fout)) => {
+                vp_assert!(can_cut && f == 0, "C05:regressor-split-found-iff-an-admissible-cut-exists");
+                vp_assert!(thr == (xi[0] + xi[1]) as f32 * scale / 2.0, "C05:regressor-threshold-is-midpoint-at-any-scale");
+                let (lo, hi) = if xi[0] < xi[1] { (0, 1) } else { (1, 0) };
+                vp_assert!(tout == yi[lo] as f32 && fout == yi[hi] as f32, "C05:regressor-child-outputs-at-any-scale");
+            }
+            None => vp_assert!(!can_cut, "C05:regressor-split-found-iff-an-admissible-cut-exists"),
+        }
+        vp_reached!();
+    }
+}
 // @vp name=c05_reg_split_n2_p2 prop=C05 tier=quick mem=24 t=480 fns=DecisionTreeRegressor::find_best_split,quick_argsort_mut size=n=2,p=2 dom=x-lattice(0..3),y-lattice(-2..2),weights0..2,msl1..2,f32 stubs=traps,no_format
 reg_split!(c05_reg_split_n2_p2, 2, 2, 2, 6);
 // @vp name=c05_reg_split_n3_p2 prop=C05 tier=thorough t=3600 fns=DecisionTreeRegressor::find_best_split,quick_argsort_mut size=n=3,p=2 dom=x-lattice(0..3),y-lattice(-2..2),weights0..2,msl1..2,f32 stubs=traps,no_format
